@@ -31,7 +31,7 @@ man = dict(
     setup_cmd="python3 tools/setup.py",
     hooks=dict(guard="H4_VERIF", enable="checks compile /repo sources with goto-cc -DH4_VERIF (engine/h4v.py base_flags)",
                baseline_off_cmd="cd /repo && cmake -G Ninja -B _build >/dev/null && cmake --build _build >/dev/null && ctest --test-dir _build -j8 --timeout 900",
-               source_commits=["a69dd23"], add_only=True),
+               source_commits=["a69dd23", "613223f"], add_only=True),
     engines=[dict(name="h4v-cbmc", path="engine/h4v.py", serves_properties=[c["property_id"] for c in checks],
                   kind_free_text="goto-cc build of /repo's working tree + CBMC 6.11 bounded model checking; counterexamples replayed natively (gcc+ASan) against the real sources")],
     checks=checks,
